@@ -268,7 +268,16 @@ impl Edit {
 			end_b -= 1;
 		}
 
-		// Slice off the prefix and suffix for both (safe because start/end are byte offsets)
+		// The common prefix and suffix were compared bytewise; widen the edit to whole characters
+		while !a.is_char_boundary(start) {
+			start -= 1;
+		}
+		while !a.is_char_boundary(end_a) {
+			end_a += 1;
+			end_b += 1;
+		}
+
+		// Slice off the prefix and suffix for both
 		let old_diff = a[start..end_a].to_string();
 		let new_diff = b[start..end_b].to_string();
 
